@@ -368,9 +368,11 @@ impl FmtAttribute {
             }
         }
 
+        let variant = (!fields.fmt_args_idents().any(|f| f.unraw() == "_variant"))
+            .then(|| format_ident!("_variant"));
         fields
             .fmt_args_idents()
-            .chain([format_ident!("_variant")])
+            .chain(variant)
             .filter_map(move |field_name| {
                 let name = field_name.unraw().to_string();
                 (used_args.contains(&name)
